@@ -68,6 +68,19 @@ def _M(m):
     return Object.inline("M", properties={"a": Property(Integer(minimum=m), required=True)})
 
 
+def _named(name, m):
+    from vf.common import Object, Property, Integer
+
+    return Object.inline(name, properties={"a": Property(Integer(minimum=m), required=True)})
+
+
+def _sub(P):
+    class Derived(P):  # type: ignore
+        pass
+
+    return Derived
+
+
 def _child(m):
     from vf.common import Object, Property, Integer, Element
 
@@ -94,6 +107,8 @@ TEMPLATES = {
     "inherited": ("m: int", "_child(m)", DV, DPRE, None, "quick"),
     "shared_class": ("m: int", 'Element(properties={"x": Property(_M(m)), "y": Property(_M(m), required=True)})', NV, NPRE, None, "quick"),
     "shared_same_object": ("m: int", '(lambda M: Element(properties={"x": Property(M)}, additionalProperties=M))(_M(m))', NV, NPRE, None, "thorough"),
+    "same_shape_different_names": ("m: int", 'Element(properties={"x": Property(_M(m)), "y": Property(_named("N", m), required=True)})', NV, NPRE, None, "quick"),
+    "subclass_next_to_base": ("m: int", '(lambda P: Element(properties={"x": Property(P), "y": Property(_sub(P))}))(_M(m))', NV, NPRE, None, "quick"),
     "array_of_class": ("m: int", "Array(_M(m), minItems=1)", "List[Dict[str, int]]", ["len(v) <= 2", "all(len(d) <= 1 and all(k in ('a', 'b') for k in d) for d in v)"], None, "quick"),
     "tuple_items": ("m: int", "Array([Integer(minimum=m), _M(m)], additionalItems=False)", "List[Union[int, Dict[str, int]]]", ["len(v) <= 3", "all((not isinstance(d, dict)) or (len(d) <= 1 and all(k in ('a', 'b') for k in d)) for d in v)"], None, "thorough"),
     "composition": ("m: int", 'OneOf(_M(m), Object.inline("N", properties={"b": Property(Integer(), required=True)}), Integer(maximum=m))', "Union[int, Dict[str, int]]", ["not isinstance(v, dict) or (len(v) <= 2 and all(k in ('a', 'b') for k in v))"], None, "quick"),
